@@ -522,7 +522,33 @@ def gen_spec(draw):
     return {'kind': 'node', 'mods': [mods[i] for i in order]}
 
 
+def fixed_specs():
+    """layouts with automatically created communicators reached through other modules, in every declaration order"""
+    import itertools
+    base = [{'name': 'top', 'cls': 'Base', 'dep': 'dev', 'touch': 'init'},
+            {'name': 'dev', 'cls': 'WithIO', 'uri': 'tcp://sharedhost:1', 'touch': 'init'},
+            {'name': 'dev2', 'cls': 'WithIO', 'uri': 'tcp://sharedhost:1', 'touch': 'init', 'dep': 'top'}]
+    for k in (2, 3):
+        for order in itertools.permutations(range(k)):
+            mods = [dict(base[i]) for i in order]
+            if k == 2:
+                yield {'kind': 'node', 'mods': mods}
+            else:
+                yield {'kind': 'node', 'mods': [dict(m, dep=None) if m['name'] == 'dev2' else m for m in mods]}
+                yield {'kind': 'node', 'mods': [dict(m, touch='early') for m in mods if m['name'] != 'dev2'] + [dict(base[2], dep=None)]}
+    for touch in ('early', 'start'):
+        yield {'kind': 'node', 'mods': [dict(base[0], touch=touch), dict(base[1])]}
+    # a communicator which is itself the user of a plain module
+    for order in ([0, 1, 2], [2, 1, 0], [1, 2, 0]):
+        mods = [{'name': 'dev', 'cls': 'Base', 'dep': 'mux', 'touch': 'init'}, {'name': 'mux', 'cls': 'ComUser', 'dep': 'sw', 'touch': 'init'},
+                {'name': 'sw', 'cls': 'Base', 'touch': 'init'}]
+        yield {'kind': 'node', 'mods': [mods[i] for i in order]}
+
+
 def run_shard(ctx, shard):
+    if shard['part'] == 'enum' and shard['idx'] == 0:
+        for spec in fixed_specs():
+            check(ctx, spec)
     if shard['part'] == 'enum':
         for n, spec in enumerate(enumerate_graphs(3 if ctx.tier == 'quick' else 4)):
             if n % shard['of'] == shard['idx']:
